@@ -165,8 +165,7 @@ def r2_wrappers(ctx, P, D):
                  f"shrink_slice calls {calls} / returns {[show(r) for r in rv]}", where=b.where(), site="None")
 
 
-def r3_reclaim_boundary(ctx, P, D):
-    R = "C13.R3"
+def r3_reclaim_boundary(ctx, P, D, R="C13.R3"):
     ctx.rule(R, "deallocate_assume_last writes the block's bump-side boundary; in-place upward grow keeps the pointer and "
                 "sets pos = up_align(old + new.size, MIN_ALIGN)")
     body = P.find_body("allocator_impl::deallocate_assume_last")
